@@ -985,7 +985,8 @@ class IssuerFingerprint(Signature):
         elif self.version == 5:  # pragma: no cover
             fpr_len = 32
         else:  # pragma: no cover
-            fpr_len = self.header.length - 1
+            # whatever follows the version octet; the subpacket length also counts the type octet
+            fpr_len = self.header.length - 2
 
         self.issuer_fingerprint = packet[:fpr_len]
         del packet[:fpr_len]
@@ -1057,7 +1058,8 @@ class IntendedRecipient(Signature):
         elif self.version == 5:  # pragma: no cover
             fpr_len = 32
         else:  # pragma: no cover
-            fpr_len = self.header.length - 1
+            # whatever follows the version octet; the subpacket length also counts the type octet
+            fpr_len = self.header.length - 2
 
         self.intended_recipient = packet[:fpr_len]
         del packet[:fpr_len]
